@@ -208,7 +208,19 @@ class Driver(object):
                                     instanceDirectory=types.SimpleNamespace(hooksDir='/nonexistent-verif-hooks'),
                                     numStages=lambda: self.nstages)
         control.WaitOnStability = lambda *a, **k: True
-        control.time.sleep = lambda s: None
+        self.slow_pm = False         # offer split post-mortems (PMB/PME) among the enabled events
+        self.inflight = {}           # c -> (thread, gate): post-mortems parked inside the stability wait
+        self._parked = threading.Event()
+
+        def fake_sleep(secs):
+            # postMortemCheck -> _restartComponent sleeps 25 s before it asks whether the system is stable, WITHOUT
+            # holding comp_lock: a post-mortem started with begin_pm() parks here until end_pm() releases it
+            t = threading.current_thread()
+            gate = getattr(t, 'verif_gate', None)
+            if gate is not None and secs == 25.0:
+                self._parked.set()
+                gate.wait()
+        control.time.sleep = fake_sleep
         tr = experiment.runtime.monitor.MonitorExceptionTracker.defaultTracker()
         tr.isSystemStable = lambda *a, **k: True
         tr.printStatus = lambda *a, **k: None
@@ -319,6 +331,47 @@ class Driver(object):
         comp._pm.on_next(({'state': codes.POSTMORTEM_STATE}, comp))
         self._scan()
 
+    def begin_pm(self, c):
+        """start the post-mortem callback of c in its own thread; returns 'parked' if it reached the stability wait
+        (c stays in pmq until end_pm) or 'done' if it completed (an ordinary, atomic PM)"""
+        comp = self.comps[c]
+        gate = threading.Event()
+        self._parked.clear()
+
+        def body():
+            try:
+                comp._pm.on_next(({'state': codes.POSTMORTEM_STATE}, comp))
+            except BaseException as e:   # noqa
+                self.errors.append('post-mortem thread: %s' % type(e).__name__)
+        t = threading.Thread(target=body, daemon=True)
+        t.verif_gate = gate
+        t.start()
+        import time as _time
+        t0 = _time.time()
+        while t.is_alive() and not self._parked.is_set():
+            _time.sleep(0.0005)
+            if _time.time() - t0 > 30:
+                self.errors.append('post-mortem callback neither finished nor reached its wait within 30 s')
+                raise RuntimeError('controller loop stuck')
+        if self._parked.is_set() and t.is_alive():
+            self.inflight[c] = (t, gate)
+            self._scan()
+            return 'parked'
+        t.join()
+        self.pmq.remove(c)
+        self._scan()
+        return 'done'
+
+    def end_pm(self, c):
+        t, gate = self.inflight.pop(c)
+        gate.set()
+        t.join(30)
+        if t.is_alive():
+            self.errors.append('post-mortem callback did not finish within 30 s after its stability wait')
+            raise RuntimeError('controller loop stuck')
+        self.pmq.remove(c)
+        self._scan()
+
     def deliver_fin(self, c):
         self.finq.remove(c)
         comp = self.comps[c]
@@ -341,7 +394,14 @@ class Driver(object):
             if e.phase == 'active' or (e.phase == 'idle' and e.kill_req):
                 ev.append(('Exit', c))
         for c in self.pmq:
-            ev.append(('PM', c))
+            if c in self.inflight:
+                ev.append(('PME', c))
+            elif not self.inflight:
+                # rx.merge serialises the post-mortem callbacks of the components submitted by one scheduler pass:
+                # while one of them is parked in its stability wait no other post-mortem is delivered
+                ev.append(('PM', c))
+                if self.slow_pm:
+                    ev.append(('PMB', c))
         for c in self.finq:
             ev.append(('Fin', c))
         return ev
@@ -354,6 +414,10 @@ class Driver(object):
             self.exit(ev[1])
         elif k == 'PM':
             self.deliver_pm(ev[1])
+        elif k == 'PMB':
+            return self.begin_pm(ev[1])
+        elif k == 'PME':
+            self.end_pm(ev[1])
         elif k == 'Fin':
             self.deliver_fin(ev[1])
         else:
